@@ -18,7 +18,7 @@ LEVEL = 'model_checking'
 LEVEL_TEXT = (
     'Explicit-state BFS on the real Session/keyboard objects over all histories of key presses, '
     'INKEY$, INPUT$(1), Enter+LINE INPUT and the buffer-clearing POKE, de-duplicated on the complete '
-    'hidden ring state and run to a fixed point (every head/tail phase of the 16-slot ring, 0..15 keys '
+    'hidden ring state and run to a fixed point (every head/tail phase of the 16-slot ring up to five times round it, 0..15 keys '
     'waiting, buffer-full drops); a 15-key FIFO reference model and the PEEK view are checked in every state.')
 LEVEL_NOTE = ('Key labels are data-independent (fresh letter per press, relabelled in the canonical key); '
               'between operations the harness snapshots/restores KeyboardBuffer._buffer/_start instead of '
@@ -146,7 +146,9 @@ def _canon(s, model):
     kb = s._impl.keyboard
     if kb._expansion_vessel or kb._stream_buffer:
         raise CheckError('unexpected keyboard side state')
-    return (n % 16, n - buf._start, min(n, 16), tuple(out), len(model))
+    # (the absolute length of the keystroke list is kept up to 5 times round the ring: nothing in the statement
+    # depends on how many keys have gone through the buffer, but an implementation might)
+    return (n % 16, n - buf._start, min(n, 80), tuple(out), len(model))
 
 
 def _fresh():
